@@ -102,6 +102,11 @@ fn tag_name(tag: &str) -> String {
     tag.trim_start_matches('<').trim_start_matches('/').split(|c: char| c.is_whitespace() || c == '>' || c == '/').next().unwrap_or("").to_string()
 }
 
+const TEXT_VALUES: &[&str] = &[
+    "_x", "_x0", "_x00", "_x000", "_x000D", "a_x000D", "plot_xaxis", "_x000D_", "_xZZZZ_", "_x005F_x000D_", "ab_x1", "ab_x12", "ab_x123", "ab_x1234", "ab_x12345",
+    "1e999", "-1e999", "NaN", "inf", "-", "", "1.5.2", "=1+", "SUM(", "A1:", "#REF!", "TRUE", "2", "-1", "99999999999", "&amp;", "&lt;x&gt;", " ",
+];
+
 /// XML element / attribute level mutation. Returns (mutated text, description)
 fn mutate_xml(rng: &mut StdRng, xml: &str) -> (String, String) {
     let ts = tags(xml);
@@ -143,6 +148,13 @@ fn mutate_xml(rng: &mut StdRng, xml: &str) -> (String, String) {
         0 => (format!("{}{}", &xml[..a], &xml[end..]), format!("delete-element:{name}")),
         1 => (format!("{}{}{}", &xml[..end], &xml[a..end], &xml[end..]), format!("duplicate-element:{name}")),
         2 if !self_closing => (format!("{}{}", &xml[..b], &xml[end.saturating_sub(name.len() + 3).max(b)..]), format!("empty-element:{name}")),
+        4 if !self_closing && end >= b + name.len() + 3 => {
+            // replace the element's content by a hostile text (escape look-alikes cut off at
+            // every length, numbers that are not numbers, formula fragments)
+            let v = *crate::util::pick(rng, TEXT_VALUES);
+            let close = end - (name.len() + 3);
+            (format!("{}{}{}", &xml[..b], v, &xml[close.max(b)..]), format!("content:{name}={}", crate::util::erase_digits(v)))
+        }
         3 => {
             // move the element to the end of its parent (reorder)
             let el = xml[a..end].to_string();
